@@ -4,6 +4,8 @@
    (binary64): the model takes the same rounding decisions as the C++.       *)
 From Coq Require Import ZArith List Bool QArith Permutation.
 From MV Require Import Tri.PartitionDefs Tri.PartitionCheck Tri.PartitionModel Tri.PartitionBounded.
+From MV Require Base.Chain Tri.QuadChain Tri.QuadModel Tri.TriModel Tri.SubdivideDefs Tri.SubdivideModel
+  Tri.SimplifyDefs Tri.SimplifyModel Tri.PartitionSweepMisc.
 Import ListNotations.
 Local Open Scope Z_scope.
 
@@ -93,16 +95,11 @@ Theorem fan_tiles :
 Proof. exact fan_tiles_lemma. Qed.
 Print Assumptions fan_tiles.
 
-(* PartitionQuad, terminal cases (two consecutive sides without added vertices),
-   up to 10 added vertices on each of the other two sides, all 16 edge
-   directions: 2 + sum(edgeAdded) triangles whose boundary chain is the outline.
-   PARTIAL: bounded sweep; the unbounded induction (DESIGN: quad_terminal_tiles
-   T-full) and the recursive case for all sizes are not proved (the recursive
-   case is covered only through partition_tiles_bounded / partition_quad_tiles_bounded). *)
-Theorem quad_terminal_tiles_partial :
+(* (bounded sweep kept as an example of quad_terminal_tiles below: all terminal
+   configurations with <= 10 added vertices per side, all 16 edge directions) *)
+Example quad_terminal_tiles_sweep :
   forallb (fun ea => forallb (quad_terminal_ok ea) bool4s) (terminal_eas 10) = true.
 Proof. exact PartitionSweepMisc.sweep_terminal. Qed.
-Print Assumptions quad_terminal_tiles_partial.
 
 (* Refine(n): every edge gets n - 1 new vertices, the pattern of (n,n,n) has n^2 triangles. *)
 Theorem uniform_n_squared :
@@ -162,3 +159,207 @@ Theorem set_epsilon_floor :
     let '(e, t) := set_epsilon tol maxeps ff us in e <= t /\ tol <= t /\ e = maxeps.
 Proof. exact set_epsilon_ge. Qed.
 Print Assumptions set_epsilon_floor.
+
+(* ====================================================================== *)
+(* All sizes.  Chains are those of Base/Chain.v: Chain.coef c a b is the
+   coefficient of the generator [a -> b] ([b -> a] = -[a -> b], loops are 0),
+   Chain.ceq is equality of all coefficients, Chain.boundaries the sum of the
+   triangle boundaries, Chain.contour the closed path through a vertex list.  *)
+
+(* PartitionQuad, terminal cases, every size and every answer of the scan:
+   the triangles' boundary chain is the outline of the quad. *)
+Theorem quad_terminal_tiles :
+  forall (a b : Z) (cv eo ea : v4 Z) (fwd : v4 bool) (corner maxEdge : Z),
+    QuadModel.nonneg4 ea -> quad_scan ea = (corner, maxEdge) -> 0 <= corner ->
+    Chain.coef (Chain.boundaries (if 0 <=? maxEdge then quad_term_one cv eo ea fwd (Z.to_nat maxEdge)
+                                  else quad_term_corner cv eo ea fwd (Z.to_nat corner))) a b =
+    Chain.coef (Chain.contour (QuadModel.qoutline cv eo ea fwd)) a b.
+Proof.
+  intros a b cv eo ea fwd corner maxEdge H1 H2 H3.
+  exact (eq_trans (QuadModel.terminal_chain a b cv eo ea fwd corner maxEdge H1 H2 H3)
+                  (eq_sym (QuadModel.W_contour a b cv eo ea fwd))).
+Qed.
+Print Assumptions quad_terminal_tiles.
+
+(* PartitionQuad, recursive and terminal, every size, every number type, every
+   value of the double-precision `added`: whenever the ported function returns
+   (no assertion failure, no out-of-bounds read, fuel sufficient) its triangles
+   triangulate the outline corner0 -> side 0 -> corner1 -> ... -> corner0. *)
+Theorem partition_quad_tiles :
+  forall (T : Type) (tlerp : T -> T -> Z -> Z -> T) (fuel : nat) (vb : list (bary T))
+         (cv eo ea : v4 Z) (fwd : v4 bool) (tv : list tri) (vb' : list (bary T)),
+    partition_quad T tlerp fuel vb cv eo ea fwd = Some (tv, vb') ->
+    Chain.ceq (Chain.boundaries tv) (Chain.contour (QuadModel.qoutline cv eo ea fwd)).
+Proof. exact QuadModel.partition_quad_tiles_lemma. Qed.
+Print Assumptions partition_quad_tiles.
+
+(* GetCachedPartition on triangles, ALL n0 >= n1 >= n2 >= 1: whenever it
+   returns, its triangles triangulate the subdivided outline
+   0 -> 3..(n0-1 vertices) -> 1 -> ... -> 2 -> ... -> 0.  The obtuse branch takes
+   two numbers from double-precision arithmetic; the theorem needs
+   split_ok: 1 <= ns and (n2 = 1 -> nh = 1) (decidable; see the sweep below).
+   That it returns (definedness) is shown only in partition_tiles_bounded. *)
+Theorem partition_tiles :
+  forall (T : Type) (tzero tone : T) (tlerp : T -> T -> Z -> Z -> T)
+         (n0 n1 n2 : Z) (vb : list (bary T)) (tv : list tri),
+    1 <= n2 <= n1 -> n1 <= n0 ->
+    cached_partition T tzero tone tlerp (V4 n0 n1 n2 0) = Some (vb, tv) ->
+    TriModel.split_ok n0 n1 n2 ->
+    Chain.ceq (Chain.boundaries tv) (Chain.contour (TriModel.tri_outline n0 n1 n2)).
+Proof.
+  intros T tzero tone tlerp n0 n1 n2 vb tv H2 H1 Hc Hs a b.
+  exact (eq_trans (TriModel.tri_partition_chain T tzero tone tlerp n0 n1 n2 vb tv H2 H1 Hc Hs a b)
+                  (eq_sym (TriModel.TW_contour a b n0 n1 n2))).
+Qed.
+Print Assumptions partition_tiles.
+
+Example split_ok_sweep :
+  forallb (fun k => TriModel.split_okb (c0 k) (c1 k) (c2 k)) (tri_keys 24) = true.
+Proof. exact PartitionSweepMisc.sweep_split_ok. Qed.
+
+(* GetCachedPartition on quads, all sizes *)
+Theorem partition_quad_pattern_tiles :
+  forall (T : Type) (tzero tone : T) (tlerp : T -> T -> Z -> Z -> T)
+         (n0 n1 n2 n3 : Z) (vb : list (bary T)) (tv : list tri),
+    0 < n3 ->
+    cached_partition T tzero tone tlerp (V4 n0 n1 n2 n3) = Some (vb, tv) ->
+    Chain.ceq (Chain.boundaries tv)
+      (Chain.contour (QuadModel.qoutline (V4 0 1 2 3)
+         (V4 4 (4 + n0 - 1) (4 + n0 - 1 + n1 - 1) (4 + n0 - 1 + n1 - 1 + n2 - 1))
+         (V4 (n0 - 1) (n1 - 1) (n2 - 1) (n3 - 1)) (V4 true true true true))).
+Proof. exact TriModel.quad_partition_chain. Qed.
+Print Assumptions partition_quad_pattern_tiles.
+
+(* ---------------------------------------------------------------------- *)
+(* Subdivide's offset arithmetic (meshes without marked quads, keepInterior =
+   false): the new vertex indices of the edges, edgeOffset[i] + [0, edgeAdded[i]),
+   tile [numVert, numVert + sum edgeAdded): every index is written exactly once. *)
+Theorem new_indices_once_edges :
+  forall (numVert : Z) (tris : list tri) (added : Z -> Z -> Z),
+    SubdivideModel.nonneg (SubdivideDefs.edge_added_list tris added) ->
+    (forall i k x,
+        SubdivideModel.in_run (SubdivideDefs.edge_offset_list numVert tris added) (SubdivideDefs.edge_added_list tris added) i k x ->
+        numVert <= x < numVert + SubdivideDefs.total_edge_added tris added) /\
+    (forall x, numVert <= x < numVert + SubdivideDefs.total_edge_added tris added ->
+       (exists i k, SubdivideModel.in_run (SubdivideDefs.edge_offset_list numVert tris added) (SubdivideDefs.edge_added_list tris added) i k x) /\
+       (forall i k i' k',
+          SubdivideModel.in_run (SubdivideDefs.edge_offset_list numVert tris added) (SubdivideDefs.edge_added_list tris added) i k x ->
+          SubdivideModel.in_run (SubdivideDefs.edge_offset_list numVert tris added) (SubdivideDefs.edge_added_list tris added) i' k' x ->
+          i = i' /\ k = k')).
+Proof. exact SubdivideModel.new_indices_once_edges. Qed.
+Print Assumptions new_indices_once_edges.
+
+(* the same for the interior vertices of the patterns, above the edge vertices *)
+Theorem new_indices_once_interior :
+  forall (T : Type) (numVert : Z) (tris : list tri) (added : Z -> Z -> Z) (ps : list (partition T)),
+    SubdivideModel.nonneg (SubdivideDefs.num_interior_list T ps) ->
+    let lo := numVert + SubdivideDefs.total_edge_added tris added in
+    let hi := lo + SubdivideDefs.zsum (SubdivideDefs.num_interior_list T ps) in
+    (forall t k x,
+        SubdivideModel.in_run (SubdivideDefs.interior_offset_list T numVert tris added ps) (SubdivideDefs.num_interior_list T ps) t k x ->
+        lo <= x < hi) /\
+    (forall x, lo <= x < hi ->
+       (exists t k, SubdivideModel.in_run (SubdivideDefs.interior_offset_list T numVert tris added ps) (SubdivideDefs.num_interior_list T ps) t k x) /\
+       (forall t k t' k',
+          SubdivideModel.in_run (SubdivideDefs.interior_offset_list T numVert tris added ps) (SubdivideDefs.num_interior_list T ps) t k x ->
+          SubdivideModel.in_run (SubdivideDefs.interior_offset_list T numVert tris added ps) (SubdivideDefs.num_interior_list T ps) t' k' x ->
+          t = t' /\ k = k')).
+Proof. exact SubdivideModel.new_indices_once_interior. Qed.
+Print Assumptions new_indices_once_interior.
+
+(* Neighbouring triangles agree on shared edges, for ANY closed oriented soup of
+   non-degenerate triangles and any assignment of offsets / numbers of new
+   vertices to the undirected edges: the subdivided outlines of all triangles
+   (forward halfedge: off, off+1, ..; backward halfedge: the same vertices
+   downwards - what Reindex's edgeFwd produces) sum to zero. *)
+Theorem subdivided_outlines_balance :
+  forall (off n : Z -> Z -> Z) (tris : list tri),
+    (forall p q r, In (p, q, r) tris -> p <> q /\ q <> r /\ r <> p) ->
+    Chain.ceq (Chain.boundaries tris) [] ->
+    Chain.ceq (flat_map (SubdivideModel.gout off n) tris) [].
+Proof. exact SubdivideModel.gout_balances. Qed.
+Print Assumptions subdivided_outlines_balance.
+
+(* ... hence the subdivided soup of the ported Subdivide is closed and oriented
+   for every closed input and every edgeDivisions oracle, PROVIDED each
+   reindexed pattern triangulates the global outline of its triangle
+   (hypothesis H_pattern below).  PARTIAL: H_pattern follows from
+   partition_tiles through the vertex renaming done by Reindex (all six orders,
+   mirrored patterns); that renaming step is proved only for divisions <= 5
+   (reindex_two_triangles_bounded) and exhibited on SubdivideModel.tetra_pattern,
+   not for all sizes. *)
+Theorem subdivide_balances_partial :
+  forall (T : Type) (tzero tone : T) (tlerp : T -> T -> Z -> Z -> T)
+         (numVert : Z) (tris : list tri) (added : Z -> Z -> Z) (out : list tri),
+    Chain.ceq (Chain.boundaries tris) [] ->
+    (forall (t : tri) (p : partition T) (io : Z) (rt : list tri),
+       In t tris ->
+       SubdivideDefs.sub_part T tzero tone tlerp numVert tris added t = Some p ->
+       SubdivideDefs.tri_out T numVert tris added t p io = Some rt ->
+       Chain.ceq (Chain.boundaries rt)
+                 (SubdivideModel.gout (SubdivideModel.goff numVert tris added) (SubdivideModel.gadd numVert tris added) t)) ->
+    SubdivideDefs.subdivide_tris T tzero tone tlerp numVert tris added = Some out ->
+    Chain.ceq (Chain.boundaries out) [].
+Proof. exact SubdivideModel.subdivide_balances. Qed.
+Print Assumptions subdivide_balances_partial.
+
+Example subdivide_tetra_balances : Chain.ceq (Chain.boundaries SubdivideModel.tetra_out) [].
+Proof. exact SubdivideModel.tetra_balances. Qed.
+
+(* property vertices: forward copies and backward duplicates never collide *)
+Theorem prop_slots_disjoint :
+  forall (numVert numPropVert newNumVert : Z) (tris : list tri) (added : Z -> Z -> Z),
+    SubdivideModel.nonneg (SubdivideDefs.edge_added_list tris added) ->
+    numVert + SubdivideDefs.total_edge_added tris added <= newNumVert ->
+    forall (i i' : nat) (o n k o' n' k' : Z),
+      nth_error (SubdivideDefs.edge_offset_list numVert tris added) i = Some o ->
+      nth_error (SubdivideDefs.edge_added_list tris added) i = Some n -> 0 <= k < n ->
+      nth_error (SubdivideDefs.edge_offset_list numVert tris added) i' = Some o' ->
+      nth_error (SubdivideDefs.edge_added_list tris added) i' = Some n' -> 0 <= k' < n' ->
+      SubdivideDefs.prop_fwd_slot numVert numPropVert o k <> SubdivideDefs.prop_bwd_slot numVert numPropVert newNumVert o' k'.
+Proof. exact SubdivideModel.prop_slots_disjoint. Qed.
+Print Assumptions prop_slots_disjoint.
+
+(* ---------------------------------------------------------------------- *)
+(* simplify_counts.  The ported CollapseEdge2 / SwapEdge (with PairUp,
+   UpdateVert, FormLoop, CollapseTri, RemoveIfFolded) only rewrite existing
+   halfedge slots: for every state, every fuel, every geometric verdict and
+   every sequence of operation requests the number of slots is unchanged ... *)
+Theorem simplify_slots_constant :
+  forall (fuel : nat) (ops : list SimplifyDefs.op) (s s' : SimplifyDefs.state),
+    SimplifyDefs.run_ops fuel ops s = Some s' -> SimplifyDefs.slots s' = SimplifyDefs.slots s.
+Proof. exact SimplifyModel.run_ops_slots. Qed.
+Print Assumptions simplify_slots_constant.
+
+(* ... so, starting from a mesh all of whose triangles are live (what
+   CleanupTopology leaves when no duplicate edge has to be split), the number
+   of triangles that survive SortGeometry (halfedge_.Pair(3*tri) >= 0) never
+   exceeds the number before: the triangle count never grows. *)
+Theorem simplify_counts :
+  forall (fuel : nat) (ops : list SimplifyDefs.op) (s s' : SimplifyDefs.state),
+    SimplifyDefs.slots s = 3 * SimplifyDefs.num_live s ->
+    SimplifyDefs.run_ops fuel ops s = Some s' ->
+    SimplifyDefs.num_live s' <= SimplifyDefs.num_live s.
+Proof. exact SimplifyModel.simplify_counts_lemma. Qed.
+Print Assumptions simplify_counts.
+
+Example simplify_counts_hypothesis_satisfiable :
+  SimplifyDefs.slots SimplifyDefs.octa = 3 * SimplifyDefs.num_live SimplifyDefs.octa /\ SimplifyDefs.num_live SimplifyDefs.octa = 8.
+Proof. exact SimplifyModel.octa_full. Qed.
+
+(* CollapseTri removes its triangle from the count *)
+Theorem collapse_tri_kills_tri :
+  forall (s : SimplifyDefs.state) (edge p1 : Z) (s' : SimplifyDefs.state),
+    0 <= edge -> SimplifyDefs.h_pair s (SimplifyDefs.next_he edge) = Some p1 -> p1 <> -1 ->
+    SimplifyDefs.collapse_tri s (SimplifyDefs.tri_of edge) = Some s' ->
+    SimplifyDefs.live_tri s' (edge / 3) = false.
+Proof. exact SimplifyModel.collapse_tri_kills_tri. Qed.
+Print Assumptions collapse_tri_kills_tri.
+
+(* the only operation that grows halfedge_ is DedupeEdge (CleanupTopology), by 6 slots = 2 triangles *)
+Theorem dedupe_adds_two :
+  forall (fuel : nat) (s : SimplifyDefs.state) (nextEdge current endVert endProp : Z) (s' : SimplifyDefs.state),
+    SimplifyDefs.dedupe_split fuel s nextEdge current endVert endProp = Some s' ->
+    SimplifyDefs.slots s' = SimplifyDefs.slots s + 6.
+Proof. exact SimplifyModel.dedupe_adds_two. Qed.
+Print Assumptions dedupe_adds_two.
